@@ -33,7 +33,10 @@ def run_once(mod, hname, target, inputs, seed):
         for name, ok in spec.S.results:
             if name == target and not ok:
                 return "fails", "obligation false"
-        return "exception", "%s: %s\n%s" % (type(e).__name__, e, traceback.format_exc()[-600:])
+        # the real code raised on inputs that satisfy every assumption made so far, before the
+        # obligation could be evaluated: the contract (which expects a result) is violated
+        return "fails", "native run raised before the obligation: %s: %s\n%s" % (
+            type(e).__name__, e, traceback.format_exc()[-600:])
     for name, ok in spec.S.results:
         if name == target and not ok:
             return "fails", "obligation false"
